@@ -114,6 +114,34 @@ Theorem C11_negative_refuted_without_read_neg : forall E,
   rs E c (write E c (VInt (-5))) = Ok (VOpaque 1).
 Proof. intro E. vm_compute. reflexivity. Qed.
 
+(* .r on a channel.  A file holding the written text of ANY number of writable values, separated by
+   k+1 blanks and optionally followed by blanks, read with .r() again and again on the same channel
+   (read from the position, parse one object, advance by the characters consumed): the values come
+   back one per call, in order, each as kg_asarray normalises it, then nothing.  The two regenerated
+   flags say that the text handed to the parser is the text the offset refers to (no strip in between)
+   and that the channel is advanced by characters, not by treating the count as a byte offset. *)
+Theorem C11_channel_reads_all : forall E, env_ok E -> forall k trail vs,
+  Forall (fun v => writable E v = true) vs ->
+  read_file E gen_cfg_r gen_r_lstrip gen_r_reposition_bytes (file_text E k vs ++ repeat 32 trail)
+    = Ok (map (asarray E) vs).
+Proof.
+  exact (fun E HE => read_file_written_cfg E HE gen_cfg_r gen_r_lstrip gen_r_reposition_bytes eq_refl eq_refl eq_refl).
+Qed.
+Print Assumptions C11_channel_reads_all.
+
+(* stripping the text before parsing while advancing the channel by the offset into the stripped text:
+   "[1 2] [3 4] [5 6]" comes back as five objects, the third is the string "]" *)
+Theorem C11_channel_refuted_with_lstrip : forall E,
+  read_file E std_cfg true false (file_text E 0 [VList [VInt 1; VInt 2]; VList [VInt 3; VInt 4]; VList [VInt 5; VInt 6]])
+    = Ok [VList [VInt 1; VInt 2]; VList [VInt 3; VInt 4]; VStr [93]; VList [VInt 5; VInt 6]; VStr [93]].
+Proof. intro E. vm_compute. reflexivity. Qed.
+
+(* the character count used as a byte offset (seek(k+i), before fix 1ef3c68): after the string "e-acute"
+   the next .r starts at its closing quote *)
+Theorem C11_channel_refuted_with_byte_offsets : forall E,
+  read_file E std_cfg false true (file_text E 0 [VStr [233]; VInt 5; VInt 6]) = Ok [VStr [233]; VStr [32; 53; 32; 54]].
+Proof. intro E. vm_compute. reflexivity. Qed.
+
 (* T11.form  Form inverts Format on atoms: x:$$x is x *)
 Theorem C11_form_inverts_format : forall E, env_ok E -> forall x, atom x = true -> wr E false x = true ->
   exists t, format E x = Some t /\ form E x t = Some x.
@@ -144,6 +172,12 @@ Example C11_env_example :
 Proof. vm_compute. repeat split; reflexivity. Qed.
 
 (* ... and env_ok as a whole is satisfiable (by a toy conversion: the bit pattern in decimal followed by ".0") *)
+Example C11_channel_example :
+  read_file env_witness gen_cfg_r gen_r_lstrip gen_r_reposition_bytes
+    (file_text env_witness 1 [VList [VInt 1; VInt (-2)]; VStr [233; 34; 10]; VDict [(VInt 1, VInt 2)]; VInt (-7)] ++ [32])
+  = Ok [VList [VInt 1; VInt (-2)]; VStr [233; 34; 10]; VDict [(VInt 1, VInt 2)]; VInt (-7)].
+Proof. vm_compute. reflexivity. Qed.
+
 Example C11_env_ok_inhabited : exists E, env_ok E.
 Proof. exact (ex_intro _ env_toy env_toy_ok). Qed.
 
